@@ -106,7 +106,7 @@ def run(tier):
         n, w = analyse(mod, run, cfg)
         per[cfg] = {"functions": n, "globals": len(mod.globals), "solver_rounds": w.rounds}
         total += n
-        run.floor("functions analysed (%s)" % cfg, n, 240)
+        run.floor("functions analysed (%s)" % cfg, n, 200)
     controls(run)
     run.coverage.update({"units": "all src/*.c except *Test.c and varintCompare.c, plus /verif/witness/wrap.c macro wrappers",
                          "configurations": per, "functions_analysed": total})
